@@ -781,3 +781,133 @@ def sched_run(params, prefix, part):
         return s
     finally:
         st.close()
+
+
+# ====================================================================== drivers (one fork pool for all configurations)
+def run_e(ctx, configs, label_prefix, max_states=None):
+    """explore.bfs for several configurations in lockstep: the frontiers of all configurations are
+    expanded by one pool.map per depth level (a level of a single small configuration cannot keep 16
+    workers busy).  Same semantics as explore.bfs: breadth-first, canonical-state dedup per
+    configuration, invariants in every state, a violation believed only if it replays identically."""
+    from vt.core import Part, jsonable
+    h0 = {}
+    for name, params, depth in configs:
+        h = PoolHarness(params)
+        part0 = Part()
+        st = explore.build(h, [])
+        try:
+            h.check(st, part0, [])
+            evs0 = h.events(st)
+            if h.is_quiescent(st, evs0):
+                h.at_quiescence(st, part0, [])
+            k0 = explore._key(h.canon(st))
+        finally:
+            h.cleanup(st)
+        ctx.merge(part0)
+        h0[name] = {'params': params, 'max_depth': depth, 'seen': {k0}, 'frontier': [([], 0)], 'states': 1, 'transitions': 0,
+                    'depth': 0, 'capped': False}
+    pool = explore.get_pool(ctx.nproc)
+    level = 0
+    while True:
+        active = [n for n, _, _ in configs if h0[n]['frontier'] and h0[n]['depth'] < h0[n]['max_depth'] and not h0[n]['capped']]
+        if not active:
+            break
+        level += 1
+        total = sum(len(h0[n]['frontier']) for n in active)
+        size = max(1, -(-total // (ctx.nproc * 4)))
+        jobs, owner = [], []
+        for n in active:
+            c = h0[n]
+            c['depth'] += 1
+            fr = ctx.rotate(c['frontier']) if c['depth'] == 1 else c['frontier']
+            for i in range(0, len(fr), size):
+                jobs.append((PoolHarness, c['params'], fr[i:i + size], None, True))
+                owner.append(n)
+        if pool is not None and len(jobs) > 1:
+            results = pool.map(explore._expand_guarded, jobs, 1)
+        else:
+            results = [explore._expand(j) for j in jobs]
+        children = dict((n, []) for n in active)
+        for n, (part, out) in zip(owner, results):
+            ctx.merge(part)
+            children[n].extend(out)
+        for n in active:
+            c = h0[n]
+            kids = children[n]
+            kids.sort(key=lambda x: repr(x[0]))          # deterministic order whatever the batching
+            nxt = []
+            for child, k, cost in kids:
+                c['transitions'] += 1
+                if k in c['seen']:
+                    continue
+                c['seen'].add(k)
+                c['states'] += 1
+                nxt.append((child, cost))
+                if len(ctx.samples) < 3 and len(child) >= min(3, c['max_depth']):
+                    ctx.sample({'harness': label_prefix + n, 'history': child})
+            if max_states is not None and c['states'] > max_states:
+                c['capped'] = True
+                ctx.cap('%s%s: state cap %d reached at depth %d' % (label_prefix, n, max_states, c['depth']))
+            c['frontier'] = nxt
+    for n, _, _ in configs:
+        c = h0[n]
+        ctx.count('states', c['states'])
+        ctx.count('executions', c['transitions'])
+        ctx.cov.setdefault('harnesses', {})[label_prefix + n] = {
+            'params': jsonable(c['params']), 'max_depth': c['max_depth'], 'depth_reached': c['depth'], 'states': c['states'],
+            'transitions': c['transitions'], 'deviation_bound': None,
+            'frontier_left': len(c['frontier']) if c['depth'] >= c['max_depth'] else 0, 'complete_to_depth': not c['capped']}
+
+
+def _s_unit(args):
+    """explore the subtree of schedules below one choice prefix (all executions within the bound)"""
+    import importlib
+    from vt import sched
+    from vt.core import Part
+    modname, params, prefix, bound, cap, only_base = args
+    fn = importlib.import_module(modname).s_harness
+    part = Part()
+    n = maxpts = 0
+    kids_out = []
+    stack = [list(prefix)]
+    while stack:
+        pf = stack.pop()
+        s = fn(params, pf, part)
+        n += 1
+        part.count('executions')
+        part.count('transitions', s.steps)
+        maxpts = max(maxpts, len(s.trace))
+        kids = [k for k, _ in sched.children(s.trace, len(pf), bound)]
+        if only_base:
+            kids_out = kids
+            break
+        if cap is not None and n + len(stack) + len(kids) > cap:
+            part.cap('subtree below prefix of length %d cut at %d executions' % (len(prefix), cap))
+            break
+        stack.extend(reversed(kids))
+    return part, n, maxpts, kids_out
+
+
+def run_s(ctx, modname, configs, label_prefix, max_executions=None):
+    """sched.explore for several configurations with two fork pools in all: the default schedule of
+    every configuration first, then every subtree below a first deviation as one unit of work."""
+    from vt.core import jsonable
+    base = ctx.pmap(_s_unit, [(modname, params, [], bound, None, True) for _, params, bound in configs])
+    units, owner = [], []
+    info = {}
+    for (name, params, bound), (part, n, maxpts, kids) in zip(configs, base):
+        ctx.merge(part)
+        info[name] = {'params': jsonable(params), 'preemption_bound': bound, 'executions': n, 'max_choice_points': maxpts,
+                      'complete': True}
+        cap = max_executions           # per subtree: a guard against an explosion, not a budget split
+        for k in kids:
+            units.append((modname, params, k, bound, cap, False))
+            owner.append(name)
+    for name, (part, n, maxpts, _) in zip(owner, ctx.pmap(_s_unit, units)):
+        ctx.merge(part)
+        info[name]['executions'] += n
+        info[name]['max_choice_points'] = max(info[name]['max_choice_points'], maxpts)
+        if part.caps:
+            info[name]['complete'] = False
+    for name, _, _ in configs:
+        ctx.cov.setdefault('harnesses', {})[label_prefix + name] = info[name]
